@@ -20,6 +20,12 @@ Operators
   list-to-tuple  x in [a, b]                ->  x in (a, b)
   aug-assign     x += k / x -= k (int literal k, x a plain name)   ->  x = x + k / x = x - k
   not-in         not (a in b) / not a in b  <->  a not in b ; not a == b -> a != b
+  early-continue last statement of a loop body `if c: X` (no else)  ->  if not c: continue ; X
+  return-ifexp   if c: return A  followed by  return B   ->  return A if c else B      (and the reverse for `return A if c else B`)
+  de-morgan      not (a or b) -> not a and not b ; not (a and b) -> not a or not b   (inside tests)
+  chain-cmp      a OP x and x OP2 b  ->  a OP x OP2 b   (x call-free)
+  extract-const  an int literal >= 10 inside a function  ->  a new module-level constant
+  add-log        `logging.getLogger(__name__).debug("trace")` as first statement of a function (NOT canonical: an extra statement)
   kw-args        f(a, b) for a call that resolves to exactly one module-level function / class of the package by name ->
                  keywords for the trailing positional arguments
 """
@@ -103,6 +109,7 @@ def sites(tree: ast.Module, known_callables: dict[str, list[str]]):
     def walk(node, path, fn, fnode):
         if isinstance(node, (ast.FunctionDef, ast.AsyncFunctionDef)):
             fn, fnode = node.name, node
+            out.append((path, "add-log", node.lineno, fn))
             doc = ast.get_docstring(node)
             if doc is None:
                 out.append((path, "docstring", node.lineno, fn))
@@ -132,6 +139,26 @@ def sites(tree: ast.Module, known_callables: dict[str, list[str]]):
             if isinstance(node, ast.Call) and isinstance(node.func, ast.Name) and node.func.id in known_callables and len(node.args) >= 2 and not node.keywords \
                     and not any(isinstance(a, ast.Starred) for a in node.args) and len(node.args) <= len(known_callables[node.func.id]):
                 out.append((path, "kw-args", node.lineno, fn))
+            if isinstance(node, (ast.For, ast.While)) and node.body and isinstance(node.body[-1], ast.If) and not node.body[-1].orelse and len(node.body) >= 1 \
+                    and not any(isinstance(x, (ast.FunctionDef, ast.Lambda)) for x in ast.walk(node)):
+                out.append((path, "early-continue", node.lineno, fn))
+            if isinstance(node, ast.Return) and isinstance(node.value, ast.IfExp):
+                out.append((path, "return-ifexp", node.lineno, fn))
+            if isinstance(node, ast.UnaryOp) and isinstance(node.op, ast.Not) and isinstance(node.operand, ast.BoolOp):
+                out.append((path, "de-morgan", node.lineno, fn))
+            if isinstance(node, ast.BoolOp) and isinstance(node.op, ast.And) and len(node.values) == 2 and all(isinstance(v, ast.Compare) and len(v.ops) == 1 for v in node.values) \
+                    and ast.dump(node.values[0].comparators[0]) == ast.dump(node.values[1].left) and pure(node.values[1].left) \
+                    and all(isinstance(v.ops[0], (ast.Lt, ast.LtE, ast.Gt, ast.GtE, ast.Eq)) for v in node.values):
+                out.append((path, "chain-cmp", node.lineno, fn))
+            if isinstance(node, ast.Constant) and type(node.value) is int and node.value >= 10:
+                out.append((path, "extract-const", node.lineno, fn))
+            for f, blk in block_fields(node):
+                if f == "hbody":
+                    continue
+                for i, st in enumerate(blk[:-1]):
+                    if isinstance(st, ast.If) and not st.orelse and len(st.body) == 1 and isinstance(st.body[0], ast.Return) and st.body[0].value is not None \
+                            and isinstance(blk[i + 1], ast.Return) and blk[i + 1].value is not None:
+                        out.append((path + [(f, i)], "return-ifexp", st.lineno, fn))
             # unguard: a block where an `if` without else terminates and statements follow
             for f, blk in block_fields(node):
                 if f == "hbody":
@@ -268,6 +295,46 @@ def transform(tree, path, op, rng, known_callables):
         c = node.operand
         c.ops = [{ast.In: ast.NotIn, ast.Eq: ast.NotEq, ast.Is: ast.IsNot}[type(c.ops[0])]()]
         put(t, path, c)
+    elif op == "early-continue":
+        last = node.body[-1]
+        node.body[-1:] = [ast.If(ast.UnaryOp(ast.Not(), last.test), [ast.Continue()], [])] + last.body
+    elif op == "return-ifexp":
+        if isinstance(node, ast.Return):
+            splice(t, path, [ast.If(node.value.test, [ast.Return(node.value.body)], []), ast.Return(node.value.orelse)])
+        else:
+            parent = get(t, path[:-1])
+            field, i = path[-1]
+            blk = getattr(parent, field)
+            blk[i:i + 2] = [ast.Return(ast.IfExp(node.test, node.body[0].value, blk[i + 1].value))]
+    elif op == "de-morgan":
+        inner = node.operand
+        new = ast.BoolOp(ast.Or() if isinstance(inner.op, ast.And) else ast.And(), [ast.UnaryOp(ast.Not(), v) for v in inner.values])
+        put(t, path, new)
+    elif op == "chain-cmp":
+        a, b = node.values
+        put(t, path, ast.Compare(a.left, [a.ops[0], b.ops[0]], [a.comparators[0], b.comparators[0]]))
+    elif op == "extract-const":
+        name = f"_K{node.value}"
+        while name in names_in(t):
+            name += "_"
+        put(t, path, ast.Name(name, ast.Load()))
+        # after the imports and any `from __future__`
+        k = 0
+        while k < len(t.body) and (isinstance(t.body[k], (ast.Import, ast.ImportFrom)) or (isinstance(t.body[k], ast.Expr) and isinstance(t.body[k].value, ast.Constant))):
+            k += 1
+        t.body.insert(k, ast.Assign([ast.Name(name, ast.Store())], ast.Constant(node.value)))
+        ast.fix_missing_locations(t)
+        return t, before, name
+    elif op == "add-log":
+        call = ast.Expr(ast.Call(ast.Attribute(ast.Call(ast.Attribute(ast.Name("logging", ast.Load()), "getLogger", ast.Load()), [ast.Name("__name__", ast.Load())], []), "debug", ast.Load()),
+                                 [ast.Constant("trace")], []))
+        k = 1 if ast.get_docstring(node) is not None else 0
+        node.body.insert(k, call)
+        if not any(isinstance(st, ast.Import) and any(a.name == "logging" for a in st.names) for st in t.body):
+            j = 0
+            while j < len(t.body) and ((isinstance(t.body[j], ast.ImportFrom) and t.body[j].module == "__future__") or (isinstance(t.body[j], ast.Expr) and isinstance(t.body[j].value, ast.Constant))):
+                j += 1
+            t.body.insert(j, ast.Import([ast.alias("logging")]))
     elif op == "kw-args":
         params = known_callables[node.func.id]
         k = rng.randint(1, len(node.args) - 1) if len(node.args) > 1 else 1
